@@ -140,6 +140,7 @@ def check_case(case):
 
 
 CLASSES = {
+    'hanzi': '书读百遍其义自现汉字',
     'digits': gens.DIGITS, 'alnum': R.ALNUM, 'latin1': 'aéüöß xyz', 'ascii': 'abcdefgh xyz,.',
     'kanji': '点茗漢字日本語', 'utf8': 'aé€漢🙂b', 'mixed': 'a1Aé点书€',
 }
@@ -147,7 +148,7 @@ CLASSES = {
 
 @st.composite
 def sequence_cases(draw):
-    kind = draw(st.sampled_from(['digits', 'digits', 'alnum', 'alnum', 'latin1', 'ascii', 'kanji', 'utf8', 'mixed', 'bytes', 'int']))
+    kind = draw(st.sampled_from(['digits', 'digits', 'alnum', 'alnum', 'latin1', 'ascii', 'kanji', 'hanzi', 'utf8', 'mixed', 'bytes', 'int']))
     r = draw(st.integers(0, 99))
     kw = {}
     if r < 45:
@@ -162,7 +163,7 @@ def sequence_cases(draw):
     lvl = (kw.get('error') or 'L').upper()
     # a length related to the per-symbol capacity
     v = kw.get('version') or draw(st.sampled_from([1, 2, 3, 5]))
-    mode = {'digits': 'numeric', 'alnum': 'alphanumeric', 'kanji': 'kanji', 'int': 'numeric'}.get(kind, 'byte')
+    mode = {'digits': 'numeric', 'alnum': 'alphanumeric', 'kanji': 'kanji', 'hanzi': 'kanji', 'int': 'numeric'}.get(kind, 'byte')
     per = max(1, (R.data_capacity_bits(v, lvl) - 20 - 4 - R.cci_bits(v, mode)) * {'numeric': 3, 'alphanumeric': 2, 'byte': 1, 'kanji': 1}[mode]
               // {'numeric': 10, 'alphanumeric': 11, 'byte': 8, 'kanji': 13}[mode])
     k = kw.get('symbol_count') or draw(st.integers(1, 17 if v <= 5 else 5))
@@ -197,6 +198,9 @@ def sequence_cases(draw):
         kw['encoding'] = draw(st.sampled_from(['utf-8', 'shift_jis', 'utf-16-be', 'iso-8859-15']))
     if draw(st.integers(0, 9)) < 1 and kind in ('digits', 'alnum', 'ascii'):
         kw['mode'] = 'byte'
+    if kind == 'hanzi':
+        kw['mode'] = 'hanzi'
+        kw.pop('encoding', None)
     return {'fn': 'make_sequence', 'content': enc_content(content), 'kw': kw}
 
 
@@ -205,8 +209,9 @@ def boundary_cases(tier):
     versions = (1, 2, 3, 4) if tier == 'quick' else (1, 2, 3, 4, 5, 6, 9, 10)
     for v in versions:
         for lvl in ('L', 'M', 'Q', 'H'):
-            for mode, alpha in (('numeric', '1234567890'), ('alphanumeric', 'AB C$%*+-./:9Z'), ('byte', 'abc;d,e/f'), ('kanji', '点茗漢字')):
-                step = 2 if mode == 'kanji' else 1
+            for mode, alpha in (('numeric', '1234567890'), ('alphanumeric', 'AB C$%*+-./:9Z'), ('byte', 'abc;d,e/f'), ('kanji', '点茗漢字'),
+                                ('hanzi', '书读百遍')):
+                step = 2 if mode in ('kanji', 'hanzi') else 1
                 cap = R.data_capacity_bits(v, lvl)
                 per = 0
                 while True:
@@ -221,15 +226,16 @@ def boundary_cases(tier):
                         if k == 16 and n > per * k:
                             continue  # needs a 17th symbol: the K3 area, covered by the search phase
                         text = (alpha * (n // len(alpha) + 1))[:n]
+                        extra = {'mode': 'hanzi'} if mode == 'hanzi' else {}
                         cases.append({'fn': 'make_sequence', 'content': enc_content(text),
-                                      'kw': {'version': v, 'error': lvl, 'boost_error': False, 'mask': 0}})
+                                      'kw': dict({'version': v, 'error': lvl, 'boost_error': False, 'mask': 0}, **extra)})
                         cases.append({'fn': 'make_sequence', 'content': enc_content(text),
-                                      'kw': {'symbol_count': k, 'error': lvl, 'mask': 0}})
+                                      'kw': dict({'symbol_count': k, 'error': lvl, 'mask': 0}, **extra)})
     return cases
 
 
 def required_labels(tier):
-    return ['by-version', 'by-count', 'symbols-2', 'symbols-9-16', 'mode-numeric', 'mode-alphanumeric', 'mode-byte', 'mode-kanji', 'refused']
+    return ['by-version', 'by-count', 'symbols-2', 'symbols-9-16', 'mode-numeric', 'mode-alphanumeric', 'mode-byte', 'mode-kanji', 'mode-hanzi', 'refused']
 
 
 def phases(tier, seed):
